@@ -10,7 +10,7 @@ use exmex::DeepEx;
 use serde_json::json;
 
 fn subs_histories(tape: &[u32], st: &mut Stats) -> CaseResult {
-    let cfg = HistCfg { prop: "C11", weights: [2, 3, 7, 1, 0, 0], max_steps: 6, check_print: false, check_serde: false, weird_pct: 10 };
+    let cfg = HistCfg { prop: "C11", weights: [2, 3, 7, 1, 0, 0, 0], max_steps: 6, check_print: false, check_serde: false, weird_pct: 10 };
     let out = run_history(tape, st, &cfg)?;
     st.class_if(out.n_subs >= 1, "a substitution replaced an occurring variable");
     st.class_if(out.subs_self_ref, "a replacement mentions a replaced variable");
